@@ -210,7 +210,7 @@ var c08Families = []c08Family{
 		}
 		sb.WriteString("1 ]")
 		return []byte(sb.String())
-	}, 0},
+	}, 8192},
 	{"cte-long-block-comment", true, func(n int) []byte {
 		return []byte("c0 [ /* " + strings.Repeat("x * / ", n/6) + " */ 1 ]")
 	}, 0},
@@ -346,6 +346,9 @@ func runC08(c *fw.Ctx, idx int) {
 		base = fam.base
 	}
 	cfg := configuration.New()
+	// the marker families grow past the default marker / reference limits: the limits are not what is measured here
+	cfg.Rules.MaxLocalReferenceCount = 1 << 40
+	cfg.Rules.MaxMarkerCount = 1 << 40
 	c.Region("scaling-" + fam.name)
 	var allocs, mallocs, cpus [4]float64
 	sizes := [4]int{}
